@@ -35,7 +35,10 @@ def handleSubvalue (j : Json) : Except String Json := do
   let τ ← tyOfJson tj
   let G ← j.getObjVal? "g" >>= rawItemsOfJson
   let vals ← j.getObjVal? "vals" >>= assocOfJson
-  pure (resJson tj (subvalueRaw τ vals G))
+  -- a dict whose keys are all tuples goes through `subvalue` (the function the theorems are about)
+  match G.mapM (fun kv => kv.1.map (fun k => (k, kv.2))) with
+  | some P => pure (resJson tj (subvalue τ vals P))
+  | none => pure (resJson tj (subvalueRaw τ vals G))
 
 def handleSubgraph (j : Json) : Except String Json := do
   let tj ← j.getObjVal? "ty"
@@ -43,7 +46,9 @@ def handleSubgraph (j : Json) : Except String Json := do
   let G ← j.getObjVal? "g" >>= rawItemsOfJson
   let nodes ← j.getObjVal? "nodes" >>= natList
   let conn ← j.getObjVal? "conn" >>= assocOfJson
-  pure (resJson tj (subgraphRaw τ nodes conn G))
+  match G.mapM (fun kv => kv.1.map (fun k => (k, kv.2))) with
+  | some P => pure (resJson tj (subgraph τ nodes conn P))
+  | none => pure (resJson tj (subgraphRaw τ nodes conn G))
 
 def handleNormalize (j : Json) : Except String Json := do
   let tj ← j.getObjVal? "ty"
